@@ -235,7 +235,11 @@ class Exec:
         elif kind == 'tforce':
             _, slot, fn, delete = op
             self.model.tforce(slot, fn, delete)
-            self.slots[slot].tasks[fn].force(delete_data=delete)
+            try:
+                self.slots[slot].tasks[fn].force(delete_data=delete)
+                obs['error'] = None
+            except Exception as e:  # noqa
+                obs['error'] = f'{type(e).__name__}: {e}'
         elif kind == 'cforce':
             _, slot, fns, recompute, delete = op
             exp = self.model.cforce(slot, fns, recompute, delete)
